@@ -351,6 +351,9 @@ def templates(tier):
     yield "for:tuple-target", "for p(1).a, (x, *p(2).b) in p(3, ((0, (0, 0, 0)), (0, (0,)))):\n    m(4)", ""
     yield "for:break", "for x in p(1, (0, 0, 0)):\n    if p(2):\n        break\n    m(3)\nelse:\n    m(4)", ""
     yield "for:walrus-iter", "for x in (w := p(1, (0, 0))):\n    m(2)", ""
+    yield "for:walrus-iter-continue", "for x in (w := p(1, (0, 0))):\n    if p(2):\n        continue\n    m(3)", ""
+    yield "for:walrus-iter-else", "for x in (w := p(1, (0, 0))):\n    m(2)\nelse:\n    m(3)", ""
+    yield "for:walrus-iter-continue-else", "for x in (w := p(1, (0, 0))):\n    if p(2):\n        continue\n    m(3)\nelse:\n    m(4)", ""
     yield "for:walrus-iter-break", "for x in (w := p(1, (0, 0, 0))):\n    if p(2):\n        break\n    m(3)\nelse:\n    m(4)", ""
     yield "for:walrus-iter-return", "def f():\n    for x in (w := p(1, (0, 0))):\n        if p(2):\n            return p(3)\n    return p(4)\nf()", ""
     yield "for:walrus-in-call-iter", "for x in p(1)(k=(w := p(2))).f:\n    m(3)\n    break", ""
